@@ -26,6 +26,14 @@ CFG = {
         "files": ["src/geom2/curve2.rs", "src/geom3/curve3.rs"],
         "tol": {"*": 1e-9},
     },
+    "C02": {
+        "cases": {"quick": 320, "thorough": 32000},
+        "level_text": "Theorems (every ordered field, squared distances): the clamped projection is the closest point of a segment; the exhaustive scan returns the minimum over every point of every edge; a point of a triangle satisfying the vertex certificate is the global closest point of that triangle; cap equivalence. This proves the SPECIFICATION (exhaustive scan); parry's bounding-volume search is external and is compared with the specification on every run (long thin, nested, nearly coincident and many-element entities, ties on exact grids).",
+        "level_note": "Partial: parry's pruning is compared, not proved; interior points of solid meshes are outside the property's quantifier and are not judged. Trusted: Lean kernel, Mathlib, hand-written model validated by the correspondence run; rounding not analysed.",
+        "files": ["src/geom2/curve2.rs", "src/geom3/curve3.rs", "src/geom3/mesh/queries.rs", "src/geom3/mesh/measurement.rs"],
+        "tol": {"*": 1e-9},
+        "extra_tier": {"thorough": ["--thorough"]},
+    },
     "C03": {
         "cases": {"quick": 1600, "thorough": 160000},
         "level_text": "Theorems (every ordered field, for every rotation matrix RᵀR = I) about the model of rigid motions: distances and dot products preserved, scalar projection / plane signed distance invariant, projections commute, inverse restores, composition = sequence (2-D and 3-D). Metamorphic checks of every public transform API against the model and against each other on every run.",
